@@ -128,6 +128,21 @@ type AstBlock struct {
 	Exit    ast.Stmt
 }
 
+// parallelAssign merges single assignments into one tuple assignment,
+// so that none of them observes the effect of another.
+func parallelAssign(assigns []ast.Stmt) []ast.Stmt {
+	if len(assigns) < 2 {
+		return assigns
+	}
+	merged := &ast.AssignStmt{Tok: token.ASSIGN}
+	for _, stmt := range assigns {
+		assign := stmt.(*ast.AssignStmt)
+		merged.Lhs = append(merged.Lhs, assign.Lhs...)
+		merged.Rhs = append(merged.Rhs, assign.Rhs...)
+	}
+	return []ast.Stmt{merged}
+}
+
 type AstFunc struct {
 	Vars   map[string]types.Type
 	Blocks []*AstBlock
@@ -1168,7 +1183,9 @@ func (fc *funcConverter) convertToStmts(ssaFunc *ssa.Function) ([]ast.Stmt, erro
 			block.Body = newBody
 		}
 
-		blockStmts := &ast.BlockStmt{List: append(block.Body, block.Phi...)}
+		// The phi nodes of a block are evaluated in parallel: one phi may take
+		// the value another phi of the same block had on the previous iteration.
+		blockStmts := &ast.BlockStmt{List: append(block.Body, parallelAssign(block.Phi)...)}
 		blockStmts.List = append(blockStmts.List, block.Exit)
 		if block.HasRefs {
 			stmts = append(stmts, &ast.LabeledStmt{Label: fc.getLabelName(block.Index), Stmt: blockStmts})
